@@ -12,6 +12,9 @@ inductive CallKind
   | exec (c : Call)
   | probe (c : Call)     -- executed on a copy of the state: judged, never advances the history
   | attempt (c : Call)   -- executed on a copy, judged exactly like `exec` (exhaustive exploration)
+  -- a request kind the contract accepts on the wire and the model has no handler for (added to
+  -- the contract after the model was written): executed on a copy; must have no effect
+  | other (sender : String) (funds : List Coin) (name : String)
   | mig (m : MigMsg)
   | query (q : QueryMsg)
   deriving Repr, Inhabited
@@ -177,6 +180,7 @@ def unmodelledCall : CallKind → Bool
      (match m.askRate with | some r => Dec.isUnmodelled r | none => false) ||
      (match m.bidRate with | some r => Dec.isUnmodelled r | none => false)
   | .query _ => false
+  | .other _ _ _ => false
 
 /-! ### per-step judgement -/
 
@@ -505,6 +509,38 @@ def judge (d : DState) : Verdict × DState :=
         | none => none
       (v, { d with st := some s', shadow := sh, lastMig := if implOk then some m else d.lastMig,
                    roles := roles', carried := if implOk then d.carried ++ carriedKeys s else d.carried })
+  | .other sender funds name =>
+    -- every theorem quantifies over the modelled request kinds; a request kind outside them is
+    -- covered by none.  Harmless as long as it has no effect; an accepted one that moves funds or
+    -- writes the book / the configuration breaks the tie between the theorems and the code for
+    -- the properties that speak about what it touched, and the generic oracles say which of
+    -- them fails outright on this very request.
+    match d.st with
+    | none => ({}, d)
+    | some s =>
+      let v : Verdict := {}
+      let v := if !implOk then
+          (if p.deltas.isEmpty then v.check "C11" "unmodelled_request_refused" true
+           else (v.check "C11" "refused_changes_nothing" false).check "C05" "refused_changes_nothing" false)
+        else if p.deltas.isEmpty && implResp.msgs.isEmpty then v.check "C11" "unmodelled_request_inert" true
+        else
+          let s' := p.deltas.foldl applyDelta s
+          let c : Call := { sender := sender, funds := funds, msg := .cancelAsk "" }
+          let bookSame := bookEq s.asks s'.asks && bookEq s.bids s'.bids
+          let touched : List String :=
+            (if implResp.msgs.isEmpty then [] else ["C01"]) ++
+            (if bookSame then [] else ["C11"]) ++
+            (if s'.info == s.info then [] else ["C12"]) ++
+            (if s'.version == s.version then [] else ["C14"]) ++ ["C05"]
+          let v := v.diff ("unmodelled-entry-point:" ++ name) touched.eraseDups
+          let v := (denomsOf env.contract s s' c implResp).eraseDups.foldl
+            (fun v dn => v.check "C01" ("C01_denomOK:" ++ dn) (C01_denomOK env.contract s c implResp s' dn)) v
+          let v := v.check "C10" "C10_msgsOK" (C10_msgsOK env c implResp)
+          let v := if sane s then v.check "C11" "sane" (sane s') else v
+          let v := v.check "C11" "C11_frameOK" (bookSame && s'.version == s.version)
+          -- nobody but an executor operates on the book or the configuration
+          v.check "C05" "C05_unmodelled_effect" (memS sender s.info.executors)
+      (v, d)
   | .query q =>
     match d.st with
     | none => ({}, d)
